@@ -276,6 +276,48 @@ func Run(ctx *core.Ctx) int {
 				return
 			}
 		}
+		// competing-branch ladders: every block extends the tip of one of k branches rooted at genesis (k^n sequences):
+		// deep reorgs and repeated overtakes far beyond the n! bound
+		ladder := func(k, n int) bool {
+			choice := make([]int, n)
+			var rec func(i int) bool
+			rec = func(i int) bool {
+				if i == n {
+					tips := make([]int, k) // index of the tip block of each branch (0 = genesis)
+					parents := make([]int, n)
+					for j, b := range choice {
+						parents[j] = tips[b]
+						tips[b] = j + 1
+					}
+					return emit(Case{Kind: "tree", Parents: parents, LibLag: 0})
+				}
+				for b := 0; b < k; b++ {
+					if i == 0 && b > 0 {
+						break // symmetry: the first block opens branch 0
+					}
+					choice[i] = b
+					if !rec(i + 1) {
+						return false
+					}
+				}
+				return true
+			}
+			return rec(0)
+		}
+		n2, n3 := 11, 8
+		if ctx.Thorough() {
+			n2, n3 = 14, 10
+		}
+		for n := maxN + 1; n <= n2; n++ {
+			if !ladder(2, n) {
+				return
+			}
+		}
+		for n := maxN + 1; n <= n3; n++ {
+			if !ladder(3, n) {
+				return
+			}
+		}
 	}, Eval)
 	ctx.Sample(Case{Kind: "tree", Parents: []int{0, 0, 2, 1, 4, 3, 6}, LibLag: 0})
 	ctx.Cov["evaluations"] = st.Evaluations + int64(sTrans)
@@ -285,7 +327,7 @@ func Run(ctx *core.Ctx) int {
 	ctx.Cov["store_level_states"] = sStates
 	ctx.Cov["store_level_transitions"] = sTrans
 	ctx.Cov["exhaustive"] = true
-	ctx.Cov["rule"] = fmt.Sprintf("pipeline half: every arrival sequence of n <= %d blocks above a final genesis block in which each new block's parent is any earlier block (n! sequences: fork tree and arrival order together; 7 blocks are the minimum for a block undone, re-applied and undone again), final block fixed at genesis for the largest n and also 'ancestor 2 below' / 'ancestor 1 below' and production mode for smaller n; the blocks go through the real bstream fork resolver (HoldBlocksUntilLIB, inclusive LIB) and its (block, step, cursor, junction) objects through the real Pipeline.ProcessBlock of a tier1 request on a program whose store operations depend on the block id (create, size-changing update, delete_prefix, additive counter, store deltas). After every new/undo step every store's content and SizeBytes are compared with the reference execution of only the current canonical chain; a client emulator applies data and undo messages and must end with the canonical chain's outputs of a fork-free run. Store-level half (E4): BFS depth %d over {apply, undo, merge, save+load} histories per policy with the oracle 'content after undo == content before the undone block'. Non-trivial: histories with at least one undo.", maxN, depth)
+	ctx.Cov["rule"] = fmt.Sprintf("pipeline half: every arrival sequence of n <= %d blocks above a final genesis block in which each new block's parent is any earlier block (n! sequences: fork tree and arrival order together; 7 blocks are the minimum for a block undone, re-applied and undone again), final block fixed at genesis for the largest n and also 'ancestor 2 below' / 'ancestor 1 below' and production mode for smaller n; the blocks go through the real bstream fork resolver (HoldBlocksUntilLIB, inclusive LIB) and its (block, step, cursor, junction) objects through the real Pipeline.ProcessBlock of a tier1 request on a program whose store operations depend on the block id (create, size-changing update, delete_prefix, additive counter, store deltas). After every new/undo step every store's content and SizeBytes are compared with the reference execution of only the current canonical chain; a client emulator applies data and undo messages and must end with the canonical chain's outputs of a fork-free run. Beyond the n! bound: every ladder in which each block extends the tip of one of 2 branches (n <= 11, thorough 14) or 3 branches (n <= 8, thorough 10) rooted at genesis. Store-level half (E4): BFS depth %d over {apply, undo, merge, save+load} histories per policy with the oracle 'content after undo == content before the undone block'. Non-trivial: histories with at least one undo.", maxN, depth)
 	ctx.Assume = []string{
 		"arrival sequences the fork resolver refuses (conflicting finality declarations) are skipped",
 		"no tier2 back-fill in these runs (modules start right above genesis)",
